@@ -174,7 +174,7 @@ func runC13(l *evlog.Log, c *evlog.Case, cs *c13Case, idx int) {
 	injectedAfterHandshakePkt := false
 	forgedToken := []byte("forged-retry-token-0123456789")
 	if cs.Inject != "" {
-		w.Router.OnEmit = func(d *wiretap.DatagramInfo) *simworld.Action {
+		w.Router.SetOnEmit(func(d *wiretap.DatagramInfo) *simworld.Action {
 			if d.Dir != wiretap.C2S || d.Conn == nil {
 				return nil
 			}
@@ -231,7 +231,7 @@ func runC13(l *evlog.Log, c *evlog.Case, cs *c13Case, idx int) {
 			injectedAfterHandshakePkt = clientSentHandshake
 			w.Router.Inject(wiretap.S2C, quicworld.ServerAddr, quicworld.ClientAddr, pkt, time.Millisecond)
 			return nil
-		}
+		})
 	}
 
 	// ---- first connection for resumption scenarios (fault-free: the schedule applies to the measured dial)
@@ -278,8 +278,8 @@ func runC13(l *evlog.Log, c *evlog.Case, cs *c13Case, idx int) {
 	var serveWG sync.WaitGroup
 	defer serveWG.Wait()
 	if cs.Scenario == "resume" || cs.Scenario == "0rtt-accept" || cs.Scenario == "0rtt-reject" {
-		saved := w.Router.OnEmit
-		w.Router.OnEmit = nil
+		saved := w.Router.GetOnEmit()
+		w.Router.SetOnEmit(nil)
 		ctx, cancel := context.WithTimeout(context.Background(), 20*time.Second)
 		done := make(chan *quic.Conn, 1)
 		go func() {
@@ -313,7 +313,7 @@ func runC13(l *evlog.Log, c *evlog.Case, cs *c13Case, idx int) {
 		sc.CloseWithError(0, "")
 		cancel()
 		time.Sleep(200 * time.Millisecond)
-		w.Router.OnEmit = saved
+		w.Router.SetOnEmit(saved)
 		if cs.Scenario == "0rtt-reject" {
 			// the server comes back with different transport parameters: 0-RTT must be rejected
 			w.EarlyLn.Close()
